@@ -218,10 +218,11 @@ impl Conjunction for NaturalBound {
         match (lhs, rhs) {
             (Variant(Unbounded), _) | (_, Variant(Unbounded)) => Variant(Unbounded),
             (Invariant(Zero), nonzero) | (nonzero, Invariant(Zero)) => nonzero,
-            (Variant(Bounded(lhs)), Variant(Bounded(rhs))) => Variant(Bounded(
-                lhs.checked_add(rhs.into())
-                    .expect("overflow determining conjunction of natural bound"),
-            )),
+            // Saturate rather than overflow: bounds specified in expressions may be arbitrarily
+            // large.
+            (Variant(Bounded(lhs)), Variant(Bounded(rhs))) => {
+                Variant(Bounded(lhs.saturating_add(rhs.into())))
+            },
         }
     }
 }
@@ -248,10 +249,9 @@ impl Product for NaturalBound {
         match (lhs, rhs) {
             (Variant(Unbounded), _) | (_, Variant(Unbounded)) => Variant(Unbounded),
             (Invariant(Zero), _) | (_, Invariant(Zero)) => Invariant(Zero),
-            (Variant(Bounded(lhs)), Variant(Bounded(rhs))) => Variant(Bounded(
-                lhs.checked_mul(rhs)
-                    .expect("overflow determining product of natural bound"),
-            )),
+            (Variant(Bounded(lhs)), Variant(Bounded(rhs))) => {
+                Variant(Bounded(lhs.saturating_mul(rhs)))
+            },
         }
     }
 }
@@ -683,17 +683,14 @@ impl BoundedVariantRange {
     pub fn translation(self, vector: usize) -> Self {
         use BoundedVariantRange::{Both, Lower, Upper};
 
-        let expect_add = move |m: NonZeroUsize| {
-            m.checked_add(vector)
-                .expect("overflow determining translation of range")
-        };
+        let add = move |m: NonZeroUsize| m.saturating_add(vector);
         match self {
             Both { lower, extent } => Both {
-                lower: expect_add(lower),
+                lower: add(lower),
                 extent,
             },
-            Lower(lower) => Lower(expect_add(lower)),
-            Upper(upper) => Upper(expect_add(upper)),
+            Lower(lower) => Lower(add(lower)),
+            Upper(upper) => Upper(add(upper)),
         }
     }
 
@@ -738,9 +735,7 @@ impl BoundedVariantRange {
     }
 
     fn upper_from_lower_extent(lower: NonZeroUsize, extent: NonZeroUsize) -> NonZeroUsize {
-        lower
-            .checked_add(extent.get())
-            .expect("overflow determining upper bound of range")
+        lower.saturating_add(extent.get())
     }
 }
 
